@@ -420,6 +420,10 @@ func c04FsDecl(d string) string {
 		return "font-size:150%;"
 	case "rem15":
 		return "font-size:1.5rem;"
+	case "ex2":
+		return "font-size:2ex;"
+	case "ch2":
+		return "font-size:2ch;"
 	}
 	return ""
 }
@@ -443,6 +447,11 @@ func c04Units(s *defScn, line []byte, out *drv.Out) {
 	if sc.Unit == "ex" || sc.Unit == "ch" {
 		tol = 1e-3
 	}
+	for _, d := range []string{sc.Root, sc.Mid, sc.Leaf} {
+		if d == "ex2" || d == "ch2" {
+			tol = 1e-3 // (a font size measured on the font; the model truncates to 1/381 px at each level)
+		}
+	}
 	if pre != "" {
 		// the other font-relative length is computed first
 		h := st.GetHeight()
@@ -461,7 +470,13 @@ func c04Units(s *defScn, line []byte, out *drv.Out) {
 			map[string]interface{}{"doc": doc, "got_px": w.Value, "want_px": float64(s.Want381) / 381})
 		return
 	}
-	if math.Abs(gotFs-float64(s.Fs381)) > 1e-4*float64(s.Fs381)+0.5 {
+	fsTol := 1e-4
+	for _, d := range []string{sc.Root, sc.Mid, sc.Leaf} {
+		if d == "ex2" || d == "ch2" {
+			fsTol = 1e-3 // measured on the font
+		}
+	}
+	if math.Abs(gotFs-float64(s.Fs381)) > fsTol*float64(s.Fs381)+0.5 {
 		out.Disagree("units:font-size:"+sc.Leaf+"-in-"+sc.Mid+"-in-"+sc.Root, fmt.Sprintf("%s: font-size computes to %v px, CSS requires %g px", doc, fs.Value, float64(s.Fs381)/381),
 			map[string]interface{}{"doc": doc, "got_px": fs.Value, "want_px": float64(s.Fs381) / 381})
 		return
